@@ -438,6 +438,7 @@ impl Runner
     {
         super::scen::set_ruler_dir(&case.ruler_dir_name());
         let world = World::new(case.knobs.clone(), &ruler_dir());
+        if let Some(t) = case.marker("clock").and_then(|t| t.parse::<u64>().ok()) { world.set_clock(t); }
         for d in case.dirs.iter()
         {
             if !d.starts_with('@') { world.user_mkdir(d); }
